@@ -262,7 +262,7 @@ ReadOK(av, pv, known, serType) ==
     CASE ~known /\ V \in {"String", "BinaryString", "ContentId", "MaterialColors"} -> av.t = "BinaryString" /\ av.v = v
       [] ~known /\ V = "Tags" -> av.t = "BinaryString" /\ av.v = JoinNul(v)
       [] ~known /\ V = "Attributes" -> av.t = "BinaryString" /\ AttrBlobOK(av.v, v)
-      [] ~known /\ V = "EnumItem" -> av.t = "Enum" /\ av.v = v[2]
+      [] V = "EnumItem" -> av.t = "Enum" /\ av.v = v[2]          \* an Enum column accepts EnumItems; only the number is stored
       [] V \in {"CFrame", "OptionalCFrame"} -> av.t = V /\ av.v = SnapCFrame(v)
       [] V = "Attributes" -> av.t = "Attributes" /\ av.v = NormAttrs(v)
       [] V = "Ref" -> av.t = "Ref" /\ av.v = (IF v > 0 THEN v ELSE 0)
